@@ -636,8 +636,7 @@ class Ovld:
             return ov
 
     def __get__(self, obj, cls):
-        if not self._compiled:
-            self.compile()
+        self.ensure_compiled()
         return self.dispatch.__get__(obj, cls)
 
     @_setattrs(rename="dispatch")
@@ -646,8 +645,7 @@ class Ovld:
 
         This should be replaced by an auto-generated function.
         """
-        if not self._compiled:
-            self.compile()
+        self.ensure_compiled()
         return self.dispatch(*args, **kwargs)
 
     @_setattrs(rename="next")
